@@ -258,17 +258,18 @@ theorem run_setDeadlineW {rel : Nat} (hsd : SdOk ok) {c c' : Clock} {durs : List
   subst this
   rfl
 
-/-- the part of an RTU exchange in front of the first read: `c2` is the clock when `Write` is
-    called, `dWr` the time `Write` takes, `c4` the clock when the first `Read` starts -/
-theorem rtuPre_run {ε T L w post t0 : Nat} {dl0 : Option Nat} (hsl : SleepOk ε ok) (hsd : SdOk ok)
+/-- the part of an RTU exchange up to the end of the post-transmission sleep (= in front of the
+    first read in the code before fix c501b6a): `c2` is the clock when `Write` is called, `dWr`
+    the time `Write` takes, `c4` the clock when the sleep is over -/
+theorem rtuPreOld_run {ε T L w post t0 : Nat} {dl0 : Option Nat} (hsl : SleepOk ε ok) (hsd : SdOk ok)
     {durs : List (Op × Nat)} {c4 : Clock}
-    (hmap : durs.map Prod.fst = rtuPreTrace T L w post)
+    (hmap : durs.map Prod.fst = rtuPreTraceOld T L w post)
     (hrun : runWith ok ⟨t0, dl0⟩ durs = some c4) :
     ∃ c2 dWr, c2.deadline = some (t0 + T) ∧ t0 + w ≤ c2.now ∧
       c2.now ≤ t0 + (if w > 0 then w + ε else 0) ∧ ok c2 (.write L) dWr ∧
       c4.deadline = some (t0 + T) ∧ c2.now + dWr + post ≤ c4.now ∧
       c4.now ≤ c2.now + dWr + post + ε := by
-  unfold rtuPreTrace at hmap
+  unfold rtuPreTraceOld at hmap
   obtain ⟨d3, dM, c2, _, h3, hM, r3, rM⟩ := runWith_append_inv hmap hrun
   obtain ⟨dA, dW, c1, _, hA, hW, rA, rW⟩ := runWith_append_inv h3 r3
   have hc1 := run_setDeadlineW hsd hA rA
@@ -290,14 +291,35 @@ theorem rtuPre_run {ε T L w post t0 : Nat} {dl0 : Option Nat} (hsl : SleepOk ε
   simp only [Clock.step] at hc4d hc4 hc4'
   exact ⟨c2, dWr, hc2.1, hc2.2.1, hc2.2.2, hdWr, by rw [hc4d]; exact hc2.1, hc4', hc4⟩
 
+theorem rtuPreTrace_eq_old (T L w post : Nat) :
+    rtuPreTrace T L w post = rtuPreTraceOld T L w post ++ [.setDeadline T] := by
+  simp [rtuPreTrace, rtuPreTraceOld]
+
+/-- the part of an RTU exchange in front of the first read (code since fix c501b6a): `c2` is
+    the clock when `Write` is called, `dWr` the time `Write` takes, `tR` the instant the
+    post-transmission sleep is over: the second deadline `tR + T` is armed and the first `Read`
+    starts -/
+theorem rtuPre_run {ε T L w post t0 : Nat} {dl0 : Option Nat} (hsl : SleepOk ε ok) (hsd : SdOk ok)
+    {durs : List (Op × Nat)} {c4 : Clock}
+    (hmap : durs.map Prod.fst = rtuPreTrace T L w post)
+    (hrun : runWith ok ⟨t0, dl0⟩ durs = some c4) :
+    ∃ c2 dWr tR, c2.deadline = some (t0 + T) ∧ t0 + w ≤ c2.now ∧
+      c2.now ≤ t0 + (if w > 0 then w + ε else 0) ∧ ok c2 (.write L) dWr ∧
+      c2.now + dWr + post ≤ tR ∧ tR ≤ c2.now + dWr + post + ε ∧
+      c4 = ⟨tR, some (tR + T)⟩ := by
+  rw [rtuPreTrace_eq_old] at hmap
+  obtain ⟨dO, dS, c3, _, hO, hS, rO, rS⟩ := runWith_append_inv hmap hrun
+  obtain ⟨c2, dWr, h1, h2, h3, h4, _, h6, h7⟩ := rtuPreOld_run hsl hsd hO rO
+  exact ⟨c2, dWr, c3.now, h1, h2, h3, h4, h6, h7, run_setDeadlineW hsd hS rS⟩
+
 theorem rtuSkeleton_eq (T rate L w post : Nat) (reads : List Op) (flush : Option (List Op)) :
     rtuSkeleton T rate L w post reads flush = rtuPreTrace T L w post ++ reads ++
       (match flush with
        | none => []
        | some f => [.sleep (Timing.maxRTUFrameLength * Timing.t1 rate), .setDeadline 500000] ++ f) := rfl
 
-/-- worst-case end of an RTU exchange when `Write` ignores the deadline (but lasts at most
-    `wmax`) and the reads obey it with slack `δ` -/
+/-- worst-case end of an RTU exchange when `Write` lasts at most `wmax` (whatever the first
+    deadline is) and the reads obey the second deadline with slack `δ` -/
 theorem elapsed_skeleton {ε δ wmax T rate L w post t0 : Nat} {dl0 : Option Nat}
     (hsl : SleepOk ε ok) (hsd : SdOk ok) (hrs : Slack Op.isRead δ ok) (hwr : WriteLe wmax ok)
     {reads : List Op} {flush : Option (List Op)}
@@ -306,17 +328,18 @@ theorem elapsed_skeleton {ε δ wmax T rate L w post t0 : Nat} {dl0 : Option Nat
     {durs : List (Op × Nat)} {c' : Clock}
     (hmap : durs.map Prod.fst = rtuSkeleton T rate L w post reads flush)
     (hrun : runWith ok ⟨t0, dl0⟩ durs = some c') :
-    c'.now ≤ max (t0 + T + δ) (t0 + (if w > 0 then w + ε else 0) + wmax + (post + ε)) +
-      (match flush with
-       | none => 0
-       | some _ => Timing.maxRTUFrameLength * Timing.t1 rate + ε + 500000 + δ) := by
+    c'.now ≤ t0 + (if w > 0 then w + ε else 0) + wmax + (post + ε) + (T + δ) +
+      (if flush.isSome then Timing.maxRTUFrameLength * Timing.t1 rate + ε + 500000 + δ else 0) := by
   rw [rtuSkeleton_eq] at hmap
   obtain ⟨d1, dTail, c5, _, h1, hTail, r1, rTail⟩ := runWith_append_inv hmap hrun
   obtain ⟨dP, dR, c4, _, hP, hR, rP, rR⟩ := runWith_append_inv h1 r1
-  obtain ⟨c2, dWr, _, _, hc2, hdWr, hc4d, _, hc4⟩ := rtuPre_run hsl hsd hP rP
+  obtain ⟨c2, dWr, tR, _, _, hc2, hdWr, _, htR, hc4⟩ := rtuPre_run hsl hsd hP rP
   have hw := hwr c2 L dWr hdWr
-  obtain ⟨hc5d, hc5, _⟩ := run_slack (P := Op.isRead) (fun _ => isIO_of_isRead) hrs hreads hR hc4d rR
-  have hbase : c5.now ≤ max (t0 + T + δ) (t0 + (if w > 0 then w + ε else 0) + wmax + (post + ε)) := by
+  subst hc4
+  obtain ⟨hc5d, hc5, _⟩ := run_slack (P := Op.isRead) (D := tR + T) (fun _ => isIO_of_isRead) hrs
+    hreads hR rfl rR
+  simp only at hc5
+  have hbase : c5.now ≤ t0 + (if w > 0 then w + ε else 0) + wmax + (post + ε) + (T + δ) := by
     omega
   cases flush with
   | none =>
@@ -324,7 +347,8 @@ theorem elapsed_skeleton {ε δ wmax T rate L w post t0 : Nat} {dl0 : Option Nat
     subst this
     simpa using hbase
   | some f =>
-    simp only at hTail ⊢
+    simp only at hTail
+    rw [Option.isSome_some, if_pos rfl]
     obtain ⟨dS, dF, c7, _, hS, hF, rS, rF⟩ := runWith_append_inv hTail rTail
     obtain ⟨dS1, dS2, c6, _, hS1, hS2, rS1, rS2⟩ := runWith_append_inv
       (a := [.sleep (Timing.maxRTUFrameLength * Timing.t1 rate)]) (b := [.setDeadline 500000]) hS rS
@@ -350,37 +374,49 @@ theorem elapsed_single_deadlineW {P : Op → Bool} {δ T t0 : Nat} {dl0 : Option
   simp only [Clock.step, Nat.add_zero] at h2 h3
   exact ⟨by omega, h3, h1⟩
 
-/-- with a bound on `Write`: the first `Read` of an RTU exchange starts no later than
+/-- code before fix c501b6a, with a bound on `Write`: the first `Read` starts no later than
     `t0 + [w + ε] + wmax + post + ε` -/
-theorem rtuPre_run_le {ε wmax T L w post t0 : Nat} {dl0 : Option Nat} (hsl : SleepOk ε ok)
+theorem rtuPreOld_run_le {ε wmax T L w post t0 : Nat} {dl0 : Option Nat} (hsl : SleepOk ε ok)
     (hsd : SdOk ok) (hwr : WriteLe wmax ok) {durs : List (Op × Nat)} {c4 : Clock}
-    (hmap : durs.map Prod.fst = rtuPreTrace T L w post)
+    (hmap : durs.map Prod.fst = rtuPreTraceOld T L w post)
     (hrun : runWith ok ⟨t0, dl0⟩ durs = some c4) :
     c4.deadline = some (t0 + T) ∧ t0 + w + post ≤ c4.now ∧
       c4.now ≤ t0 + (if w > 0 then w + ε else 0) + wmax + post + ε := by
-  obtain ⟨c2, dWr, _, h1, h2, hdWr, hc4d, h3, h4⟩ := rtuPre_run hsl hsd hmap hrun
+  obtain ⟨c2, dWr, _, h1, h2, hdWr, hc4d, h3, h4⟩ := rtuPreOld_run hsl hsd hmap hrun
   have := hwr c2 L dWr hdWr
   exact ⟨hc4d, by omega, by omega⟩
 
-/-- without a bound on `Write`: the two sleeps alone -/
-theorem rtuPre_run_ge {ε T L w post t0 : Nat} {dl0 : Option Nat} (hsl : SleepOk ε ok)
+/-- code before fix c501b6a, without a bound on `Write`: the two sleeps alone -/
+theorem rtuPreOld_run_ge {ε T L w post t0 : Nat} {dl0 : Option Nat} (hsl : SleepOk ε ok)
+    (hsd : SdOk ok) {durs : List (Op × Nat)} {c4 : Clock}
+    (hmap : durs.map Prod.fst = rtuPreTraceOld T L w post)
+    (hrun : runWith ok ⟨t0, dl0⟩ durs = some c4) :
+    c4.deadline = some (t0 + T) ∧ t0 + w + post ≤ c4.now := by
+  obtain ⟨c2, dWr, _, h1, h2, hdWr, hc4d, h3, h4⟩ := rtuPreOld_run hsl hsd hmap hrun
+  exact ⟨hc4d, by omega⟩
+
+/-- code since fix c501b6a: when the first `Read` starts the deadline is `T` away, whatever the
+    sleeps and the `Write` took; the `Write` was called no later than `t0 + [w + ε]` under the
+    first deadline `t0 + T` -/
+theorem rtuPre_run_fresh {ε T L w post t0 : Nat} {dl0 : Option Nat} (hsl : SleepOk ε ok)
     (hsd : SdOk ok) {durs : List (Op × Nat)} {c4 : Clock}
     (hmap : durs.map Prod.fst = rtuPreTrace T L w post)
     (hrun : runWith ok ⟨t0, dl0⟩ durs = some c4) :
-    c4.deadline = some (t0 + T) ∧ t0 + w + post ≤ c4.now := by
-  obtain ⟨c2, dWr, _, h1, h2, hdWr, hc4d, h3, h4⟩ := rtuPre_run hsl hsd hmap hrun
-  exact ⟨hc4d, by omega⟩
+    c4.deadline = some (c4.now + T) ∧ t0 + w + post ≤ c4.now ∧
+      ∃ c2 dWr, c2.deadline = some (t0 + T) ∧ c2.now ≤ t0 + (if w > 0 then w + ε else 0) ∧
+        ok c2 (.write L) dWr ∧ c4.now ≤ c2.now + dWr + post + ε := by
+  obtain ⟨c2, dWr, tR, h1, h2, h3, h4, h5, h6, h7⟩ := rtuPre_run hsl hsd hmap hrun
+  subst h7
+  exact ⟨rfl, by simp only; omega, c2, dWr, h1, h3, h4, h6⟩
 
 end generic
 
 theorem elapsed_skeleton_le {ε δ wmax T rate w post t0 : Nat} (flush : Option (List Op)) :
-    max (t0 + T + δ) (t0 + (if w > 0 then w + ε else 0) + wmax + (post + ε)) +
-      (match flush with
-       | none => 0
-       | some _ => Timing.maxRTUFrameLength * Timing.t1 rate + ε + 500000 + δ) ≤
+    t0 + (if w > 0 then w + ε else 0) + wmax + (post + ε) + (T + δ) +
+      (if flush.isSome then Timing.maxRTUFrameLength * Timing.t1 rate + ε + 500000 + δ else 0) ≤
     t0 + T + rtuMarginSerial rate w post ε δ wmax := by
   unfold rtuMarginSerial rtuMargin
-  cases flush <;> simp only <;> split <;> omega
+  cases flush <;> simp only [Option.isSome] <;> split <;> simp <;> omega
 
 /-! ### the serial traces -/
 
@@ -549,6 +585,9 @@ theorem postOf_le {rate n ts now2 : Nat} (h : ts ≤ now2) :
     postOf rate n ts now2 ≤ n * Timing.t1 rate + Timing.t35 rate := by
   unfold postOf; omega
 
+theorem postOf_self (rate n ts : Nat) : postOf rate n ts ts = minTimeoutRtu rate n := by
+  unfold postOf minTimeoutRtu; omega
+
 /-- Timing.lean `txStart` is `now` plus the argument of the first sleep -/
 theorem txStart_eq_waitOf (now la rate : Nat) :
     Timing.txStart now la rate = now + waitOf rate la now := by
@@ -650,19 +689,19 @@ theorem rtuReadOps_head {s : Bytes} (hs : s ≠ []) : ∃ k rest, rtuReadOps s =
 section generic
 variable {ok : Clock → Op → Nat → Prop} [∀ c op d, Decidable (ok c op d)]
 
-/-- outcomes coupled to the clock, RTU: when the two sleeps alone outlast the timeout, no run
-    of the exchange contains a `Read` that returned data - the stream it sees is empty -/
+/-- outcomes coupled to the clock, RTU, CODE BEFORE FIX c501b6a: when the two sleeps alone
+    outlast the timeout, no run of the exchange contains a `Read` that returned data - the stream it sees is empty -/
 theorem late_read_sees_nothing {ε T L w post t0 : Nat} {dl0 : Option Nat} (hsl : SleepOk ε ok)
     (hsd : SdOk ok) (hlf : LateFails ok) {s : Bytes} {tail : List Op}
     {durs : List (Op × Nat)} {c' : Clock}
-    (hmap : durs.map Prod.fst = rtuPreTrace T L w post ++ rtuReadOps s ++ tail)
+    (hmap : durs.map Prod.fst = rtuPreTraceOld T L w post ++ rtuReadOps s ++ tail)
     (hrun : runWith ok ⟨t0, dl0⟩ durs = some c') (hT : T < w + post) : s = [] := by
   apply Classical.byContradiction
   intro hs
   obtain ⟨k, rest, hhead⟩ := rtuReadOps_head hs
   obtain ⟨d1, dTail, c5, _, h1, _, r1, _⟩ := runWith_append_inv hmap hrun
   obtain ⟨dP, dR, c4, _, hP, hR, rP, rR⟩ := runWith_append_inv h1 r1
-  obtain ⟨c2, dWr, _, hc2, _, _, hc4d, hc4, _⟩ := rtuPre_run hsl hsd hP rP
+  obtain ⟨c2, dWr, _, hc2, _, _, hc4d, hc4, _⟩ := rtuPreOld_run hsl hsd hP rP
   rw [hhead] at hR
   obtain ⟨d, _, _, _, hd, _⟩ := runWith_cons_inv hR rR
   have := hlf _ _ _ hd
